@@ -25,7 +25,7 @@ def _expects(meta, pid):
     return meta.get("property") == pid
 
 
-def _one(pid, name, patch):
+def _one(pid, name, patch, benign=False):
     tmp = tempfile.mkdtemp(prefix="verif-mutant-%s-" % name, dir=os.environ.get("TMPDIR", "/tmp"))
     try:
         r = subprocess.run(["rsync", "-a", "--exclude", ".git", "--exclude", "*.o", "--exclude", "*.lo", "--exclude", ".libs",
@@ -38,6 +38,9 @@ def _one(pid, name, patch):
         env = dict(os.environ, VERIF_REPO=tmp, VERIF_MUTANT_RUN=name)
         r = subprocess.run([os.path.join(VERIF, "check"), pid, "--tier", "quick"], env=env, capture_output=True, text=True, cwd=VERIF)
         lines = [l.strip() for l in r.stdout.splitlines() if l.startswith("   ") and "note:" not in l and "exception:" not in l]
+        if benign:
+            return (name, {0: "silent", 1: "FALSE ALARM", 2: "broken"}.get(r.returncode, "error"),
+                    (lines[0][:200] if lines else r.stdout[-200:]) if r.returncode else "")
         return (name, {1: "reported", 0: "MISSED", 2: "broken"}.get(r.returncode, "error"), (lines[0][:200] if lines else r.stdout[-200:]))
     finally:
         shutil.rmtree(tmp, ignore_errors=True)
@@ -60,6 +63,19 @@ def self_test(chk, pid):
         for r in ex.map(lambda j: _one(pid, j[0], j[1]), jobs):
             res.append(r)
     chk.extra["mutant_self_test"] = [{"seed": n, "result": st, "first_report": d} for (n, st, d) in res]
+    # behaviour-preserving refactorings on which this check once raised a false alarm: silence expected
+    bidx = os.path.join(VERIF, "benign", "index.json")
+    if os.path.exists(bidx):
+        idx = json.load(open(bidx))
+        bjobs = [(k.replace("/", "-"), os.path.join(VERIF, "benign", k)) for k, v in idx.items() if isinstance(v, list) and pid in v]
+        bres = [_one(pid, n, p, benign=True) for (n, p) in bjobs]
+        chk.extra["benign_self_test"] = [{"patch": n, "result": st, "report": d} for (n, st, d) in bres]
+        for (n, st, d) in bres:
+            if st == "skipped":
+                chk.note("benign/%s: %s" % (n, d))
+            else:
+                chk.control("benign/" + n, st == "silent", "behaviour-preserving refactoring must not be reported" +
+                            ("" if st == "silent" else ": " + d))
     for (n, st, d) in res:
         if st == "reported":
             chk.control("seeded/" + n, True, "independently seeded change is reported: " + d)
